@@ -521,6 +521,7 @@ type coneVisitor struct {
 	visited map[string]bool
 	onWrite func(fn *ssa.Function, w *sqlWrite, isTx bool, chain string)
 	onFn    func(fn *ssa.Function, chain string, isTxVal func(ssa.Value) bool)
+	onCall  func(fn *ssa.Function, call ssa.Instruction, callee *ssa.Function, chain string)
 }
 
 // implementations resolves an interface method to the repository's concrete methods (CHA restricted to repo types).
@@ -662,6 +663,9 @@ func (cv *coneVisitor) visit(fn *ssa.Function, isTxVal func(ssa.Value) bool, cha
 				if !inRepo(g) {
 					continue
 				}
+				if cv.onCall != nil {
+					cv.onCall(f, i, g, chain)
+				}
 				args := cc.Args
 				params := g.Params
 				if cc.IsInvoke() {
@@ -715,4 +719,144 @@ func ruleTxThrough(c *core.Ctx, rule string, fn *ssa.Function) int {
 		cv.visit(fn, s.isTx, fn.Name(), 0)
 	}
 	return n
+}
+
+
+// ruleTxErr: no error of an SQL write inside a tx scope is dropped. On the err != nil edge of every write in the cone,
+// every path returns an error derived from it; the single accepted exception is the duplicate-row idiom on the
+// content-addressed rht table: SQLite extended code 1555 (SQLITE_CONSTRAINT_PRIMARYKEY) of that very error.
+func ruleTxErr(c *core.Ctx, rule string, fn *ssa.Function) int {
+	n := 0
+	for k, s := range findTxScopes(fn) {
+		if s.txVal == nil || s.returnsTx() {
+			continue
+		}
+		root := fmt.Sprintf("%s#tx%d", core.ShortFn(fn), k+1)
+		ord := map[string]int{}
+		cv := &coneVisitor{c: c, visited: map[string]bool{}}
+		var site func(f *ssa.Function, w *sqlWrite, chain string)
+		cv.onWrite = func(f *ssa.Function, w *sqlWrite, isTx bool, chain string) { site(f, w, chain) }
+		seenCall := map[ssa.Instruction]bool{}
+		cv.onCall = func(f *ssa.Function, call ssa.Instruction, g *ssa.Function, chain string) {
+			if seenCall[call] || !fnWritesSQL(c, g, 0) {
+				return
+			}
+			seenCall[call] = true
+			res := g.Signature.Results()
+			if res.Len() == 0 || !types.Identical(res.At(res.Len()-1).Type(), types.Universe.Lookup("error").Type()) {
+				return
+			}
+			site(f, &sqlWrite{instr: call, what: "call:" + g.Name()}, chain)
+		}
+		site = func(f *ssa.Function, w *sqlWrite, chain string) {
+			base := fmt.Sprintf("%s:%s@%s", root, w.what, core.ShortFn(f))
+			ord[base]++
+			construct := fmt.Sprintf("%s#%d", base, ord[base])
+			n++
+			call, ok := w.instr.(*ssa.Call)
+			if !ok {
+				c.Violate(rule, construct, w.instr.Pos(), "SQL write in a defer/go statement: its error is dropped")
+				return
+			}
+			ev := core.ErrValueOf(call)
+			if ev == nil {
+				c.Violate(rule, construct, call.Pos(), "the error result of the SQL write is dropped")
+				return
+			}
+			if r, isRet := directReturnOf(ev); isRet {
+				_ = r
+				c.Hold(rule, construct, "error returned directly to the caller")
+				return
+			}
+			errEdges := core.NilEdgesRes(f, ev, false)
+			if len(errEdges) == 0 {
+				c.Violate(rule, construct, call.Pos(), "the error result of the SQL write is never tested")
+				return
+			}
+			sx := core.NewSymx().Bind(ev, "ERR")
+			dup := core.TermEdges(f, sx, func(s string, _ *core.Term) bool {
+				return s == "(db.SQLiteErr(ERR)#0.ExtendedCode == const(1555))"
+			}, true)
+			// an error return is acceptable when it is certainly non-nil: it wraps / is the failed write's error, is a
+			// freshly built error, or a package-level sentinel error
+			derives := func(v ssa.Value) bool {
+				for _, alt := range sx.Of(v).Alts() {
+					ok := false
+					alt.Walk(func(t *core.Term) {
+						if t.Op == "param" && t.Name == "ERR" {
+							ok = true
+						}
+					})
+					if alt.Op == "call" && (alt.Name == "fmt.Errorf" || alt.Name == "errors.New") {
+						ok = true
+					}
+					if alt.Op == "global" {
+						ok = true
+					}
+					if !ok {
+						return false
+					}
+				}
+				return true
+			}
+			var bad *core.Found
+			for _, e := range errEdges {
+				start := core.Point{B: e.B.Succs[e.Succ], I: 0}
+				fnd := (&core.Walk{EdgeOK: core.Forbid(dup), Target: func(i ssa.Instruction) bool {
+					if r, ok := i.(*ssa.Return); ok {
+						if len(r.Results) == 0 {
+							return true
+						}
+						return !derives(r.Results[len(r.Results)-1])
+					}
+					if i != w.instr && sqlWriteOf(i) != nil {
+						return true
+					}
+					if f == fn && s.isCommit(i) {
+						return true
+					}
+					return false
+				}}).From(start, nil)
+				if fnd != nil {
+					bad = fnd
+				}
+			}
+			if bad != nil {
+				c.Violate(rule, construct, bad.Instr.Pos(), "after this SQL write failed, a path carries on (next write / commit / return without that error) although the failure is not the accepted duplicate-row case: the block would be committed with part of its data missing ("+chain+")")
+			} else {
+				c.Hold(rule, construct, "a failure of this write always ends the function with that error (duplicate rht rows excepted)")
+			}
+		}
+		cv.visit(fn, s.isTx, fn.Name(), 0)
+	}
+	return n
+}
+
+// directReturnOf: the value is only used as a return operand (e.g. `return meddler.Insert(...)`).
+func directReturnOf(v ssa.Value) (*ssa.Return, bool) {
+	refs := v.Referrers()
+	if refs == nil {
+		return nil, false
+	}
+	var ret *ssa.Return
+	for _, r := range *refs {
+		switch x := r.(type) {
+		case *ssa.Return:
+			ret = x
+		case *ssa.DebugRef:
+		case *ssa.Store:
+			// defer-spill of the result: *ret = v
+			if al, ok := x.Addr.(*ssa.Alloc); ok && al.Comment == "" {
+				continue
+			}
+			return nil, false
+		default:
+			return nil, false
+		}
+	}
+	if ret != nil {
+		return ret, true
+	}
+	// spilled-only: accept when every use is a spill store
+	return nil, len(*refs) > 0
 }
